@@ -385,3 +385,36 @@ Proof.
   - constructor.
 Qed.
 
+
+(** [chain] in words: every token lies in [lo, hi], is itself well placed, and
+    starts at or after the stop of the one before it. *)
+Lemma chain_bounds s lo l hi :
+  chain s lo l hi ->
+  Forall (fun e => (lo <= zstart e /\ zstart e <= etok_stop e /\ etok_stop e <= hi)%Z /\ tok_ok s e) l.
+Proof.
+  revert lo; induction l as [|e l IH]; intros lo H; inversion H as [|? ? ? ? A B C]; subst; constructor.
+  - pose proof (tok_ok_span _ _ B). pose proof (chain_le _ _ _ _ C). repeat split; try assumption; lia.
+  - eapply Forall_impl; [|apply IH; exact C]. simpl. intros x ((D & E & F) & G).
+    pose proof (tok_ok_span _ _ B). repeat split; try assumption; lia.
+Qed.
+
+Lemma chain_adjacent s lo l hi i e1 e2 :
+  chain s lo l hi -> nth_error l i = Some e1 -> nth_error l (S i) = Some e2 ->
+  (etok_stop e1 <= zstart e2)%Z.
+Proof.
+  revert lo i; induction l as [|x l IH]; intros lo i H H1 H2; [destruct i; discriminate|].
+  inversion H as [|? ? ? ? A B C]; subst. destruct i as [|i].
+  - simpl in H1, H2. inversion H1; subst. destruct l; [discriminate|]. simpl in H2. inversion H2; subst.
+    inversion C; subst. assumption.
+  - simpl in H1, H2. eapply IH; eassumption.
+Qed.
+
+(** Non-vacuity: a source whose tokens exercise paths, a template string with
+    a nested range, a liquid tag with a comment and a block comment. *)
+Example tokens_ok_example :
+  exists toks,
+    lex false [123;123;32;97;46;98;91;99;93;32;124;32;102;58;32;34;120;36;123;40;49;46;46;110;41;125;34;32;125;125;
+               123;37;32;108;105;113;117;105;100;10;35;32;99;10;101;99;104;111;32;49;32;37;125;
+               123;37;32;99;111;109;109;101;110;116;32;37;125;122;123;37;32;101;110;100;99;111;109;109;101;110;116;32;37;125]%N
+      = Ok toks /\ length toks = 3.
+Proof. eexists. split; [vm_compute; reflexivity|reflexivity]. Qed.
